@@ -100,7 +100,8 @@ static std::string do_mk(const std::string& tree) {
   return "ok";
 }
 
-static void dump_r(const std::string& rel, SV& out) {
+// sorted = canonical dump; unsorted = the order readdir hands the names out (what _remove_all_r iterates in)
+static void dump_r(const std::string& rel, SV& out, bool sorted) {
   DIR* d = opendir(P(rel).c_str());
   if (!d) return;
   SV names;
@@ -109,12 +110,12 @@ static void dump_r(const std::string& rel, SV& out) {
     if (n != "." && n != "..") names.push_back(n);
   }
   closedir(d);
-  std::sort(names.begin(), names.end());
+  if (sorted) std::sort(names.begin(), names.end());
   for (auto& n : names) {
     std::string c = rel.empty() ? n : rel + "/" + n;
     struct stat st;
     if (lstat(P(c).c_str(), &st) != 0) { out.push_back("?:" + hex(c)); continue; }
-    if (S_ISDIR(st.st_mode)) { out.push_back("d:" + hex(c)); dump_r(c, out); }
+    if (S_ISDIR(st.st_mode)) { out.push_back("d:" + hex(c)); dump_r(c, out, sorted); }
     else if (S_ISLNK(st.st_mode)) {
       char buf[4096]; ssize_t k = readlink(P(c).c_str(), buf, sizeof buf);
       std::string tg(buf, k > 0 ? k : 0);
@@ -129,8 +130,8 @@ static void dump_r(const std::string& rel, SV& out) {
   }
 }
 
-static std::string do_dump() {
-  SV out; dump_r("", out);
+static std::string do_dump(bool sorted) {
+  SV out; dump_r("", out, sorted);
   if (out.empty()) return ".";
   std::string r; for (size_t i = 0; i < out.size(); i++) { if (i) r += ","; r += out[i]; }
   return r;
@@ -169,7 +170,7 @@ static std::string in_sandbox(const std::string& dir, const std::string& cmd, co
       if (chdir(dir.c_str()) != 0) die("chdir failed");
       g_base = dir;
     }
-    std::string r = cmd == "mk" ? do_mk(arg) : cmd == "rm" ? do_rm(arg) : cmd == "dump" ? do_dump()
+    std::string r = cmd == "mk" ? do_mk(arg) : cmd == "rm" ? do_rm(arg) : cmd == "dump" ? do_dump(true) : cmd == "dumpo" ? do_dump(false)
                   : cmd == "clean" ? (wipe(""), std::string("ok")) : std::string("ERR cmd");
     size_t off = 0;
     while (off < r.size()) { ssize_t k = write(fds[1], r.data() + off, r.size() - off); if (k <= 0) break; off += k; }
@@ -199,7 +200,7 @@ int main() {
     if (a[0] == "mode") r = g_chroot ? "chroot" : "prefix";
     else if (a[0] == "mk" && a.size() == 3) { if (sandbox_ok(a[1])) mkdir(a[1].c_str(), 0755); r = in_sandbox(a[1], "mk", a[2]); }
     else if (a[0] == "rm" && a.size() == 3) r = in_sandbox(a[1], "rm", unhex(a[2]));
-    else if (a[0] == "dump" && a.size() == 2) r = in_sandbox(a[1], "dump", "");
+    else if ((a[0] == "dump" || a[0] == "dumpo") && a.size() == 2) r = in_sandbox(a[1], a[0], "");
     else if (a[0] == "clean" && a.size() == 2) { r = in_sandbox(a[1], "clean", ""); if (r == "ok") rmdir(a[1].c_str()); }
     else r = "ERR args";
     printf("%s\n", r.c_str()); fflush(stdout);
